@@ -73,6 +73,11 @@ void fill_summary(const cJSON* req, Opm::SummaryState& st)
             st.update_well_var(jstr(cJSON_GetArrayItem(e, 1)), jstr(cJSON_GetArrayItem(e, 0)),
                                jdouble(cJSON_GetArrayItem(e, 2)));
         });
+    if (jhas(req, "svals"))
+        jforeach(jget(req, "svals"), [&](const cJSON* e) {
+            st.update_segment_var(jstr(cJSON_GetArrayItem(e, 1)), jstr(cJSON_GetArrayItem(e, 0)),
+                                  (std::size_t)jint(cJSON_GetArrayItem(e, 2)), jdouble(cJSON_GetArrayItem(e, 3)));
+        });
 }
 
 void fill_wlists(const cJSON* req, Opm::WListManager& wlm)
